@@ -96,9 +96,10 @@ def make_tensor(label, modes, ordering):
 
 
 class Evaluator:
-    def __init__(self, func_node: ast.FunctionDef, assumptions):
+    def __init__(self, func_node: ast.FunctionDef, assumptions, globals_=None):
         self.fn = func_node
         self.assume = dict(assumptions)  # (repr lhs, repr rhs) -> bool (are they equal?)
+        self.globals = dict(globals_ or {})
 
     # ---- expressions -----------------------------------------------------------------------------
     def ev(self, e, env):
@@ -107,6 +108,8 @@ class Evaluator:
         if isinstance(e, ast.Name):
             if e.id in env:
                 return env[e.id]
+            if e.id in self.globals:
+                return self.globals[e.id]
             if e.id == "Mode":
                 return MODE
             if e.id in ("Tensor", "Real", "NotImplemented", "ValueError", "TypeError", "NotImplementedError"):
@@ -184,7 +187,7 @@ class Evaluator:
                 return l + r
             if isinstance(e.op, ast.Add) and isinstance(l, (tuple, int)) and type(l) is type(r):
                 return l + r
-            if isinstance(e.op, ast.Mult) and isinstance(l, (str, tuple)) and isinstance(r, int):
+            if isinstance(e.op, ast.Mult) and isinstance(l, (str, tuple, list)) and isinstance(r, int):
                 return l * r
             if isinstance(e.op, ast.Sub) and isinstance(l, int) and isinstance(r, int):
                 return l - r
@@ -213,6 +216,8 @@ class Evaluator:
                 return any(self.equal(l, x) for x in r)
             if isinstance(op, ast.NotIn):
                 return not any(self.equal(l, x) for x in r)
+            if isinstance(op, (ast.Lt, ast.LtE, ast.Gt, ast.GtE)) and isinstance(l, (int, float)) and isinstance(r, (int, float)):
+                return {ast.Lt: l < r, ast.LtE: l <= r, ast.Gt: l > r, ast.GtE: l >= r}[type(op)]
             if isinstance(op, (ast.Is, ast.IsNot)):
                 same = l is r
                 return same if isinstance(op, ast.Is) else not same
@@ -310,6 +315,8 @@ class Evaluator:
             name = fn.id
             if name in env and isinstance(env[name], ast.FunctionDef):
                 return self.run_function(env[name], args, kwargs, env)
+            if name in self.globals and callable(self.globals[name]):
+                return self.globals[name](*args, **kwargs)
             if name == "range":
                 return tuple(range(*args))
             if name == "len":
@@ -449,17 +456,35 @@ class Evaluator:
                 raise Raised(ast.unparse(exc))
             elif isinstance(s, ast.Pass):
                 continue
+            elif isinstance(s, ast.Try) and not s.finalbody:
+                try:
+                    self.block(s.body, env)
+                except Raised as r:
+                    for h in s.handlers:
+                        names = []
+                        if h.type is not None:
+                            ts = h.type.elts if isinstance(h.type, ast.Tuple) else [h.type]
+                            names = [ast.unparse(t).split(".")[-1] for t in ts]
+                        if h.type is None or r.exc.split(".")[-1] in names or "Exception" in names:
+                            if h.name:
+                                env[h.name] = Obj("Exception", name=r.exc)
+                            self.block(h.body, env)
+                            break
+                    else:
+                        raise
+                else:
+                    self.block(s.orelse, env)
             else:
                 raise Uninterpretable(f"statement {type(s).__name__}")
 
 
-def explore(func_node, args, kwargs=None):
+def explore(func_node, args, kwargs=None, globals_=None):
     """Evaluate func_node(*args) over all forks. Yields (assumptions, outcome) where outcome is
     ('return', value) | ('raise', name) | ('uninterpretable', reason)."""
     work = [{}]
     while work:
         assume = work.pop()
-        ev = Evaluator(func_node, assume)
+        ev = Evaluator(func_node, assume, globals_)
         try:
             v = ev.run_function(func_node, list(args), dict(kwargs or {}), {})
             yield assume, ("return", v)
